@@ -170,6 +170,10 @@ def score(ctx, N):
     site = ctx.site(P.method(cls, "score"))
     for center in (False, True):
         stubs = {"KernelPCovR._get_kernel": kernel_stub}
+        if center:
+            # the normaliser's own formula is decided by C12; here it is an uninterpreted map so
+            # that the score formula is compared on small terms
+            stubs.update(center_stubs())
         I = ctx.interp(stubs=stubs, assume=protocols.assume_default)
         st = State()
         Xf = pc.farr(T("sym", "Xfit"), "N", "M")
@@ -188,7 +192,7 @@ def score(ctx, N):
             st.heap[o.obj.id]["centerer_"] = cen
         lo = len(I.events)
         r = ctx.call_method(I, st, o, "score", Xv, Yv)
-        I2, s2 = ctx.interp(assume=protocols.assume_default), State()
+        I2, s2 = ctx.interp(assume=protocols.assume_default, stubs=center_stubs() if center else None), State()
         if center:
             cen2 = ctx.bare_object(I2, s2, P.cls("skmatter.preprocessing.KernelNormalizer"), dict(s_items(st, cen)))
             Knn = ctx.call_method(I2, s2, cen2, "transform", rawNN)
